@@ -34,6 +34,10 @@ func TestVerifFilter(t *testing.T) {
 	r := rand.New(rand.NewSource(res.Seed))
 	start := time.UnixMilli(1683979200000).UTC()
 	n := res.n(100, 1000)
+	rp := vReplay("filter")
+	if rp != nil {
+		n = 1
+	}
 	for i := 0; i < n; i++ {
 		bs, frames := vStream(r, res.n(60, 400))
 		display, record := i%2 == 1, i%4 >= 2
@@ -43,10 +47,18 @@ func TestVerifFilter(t *testing.T) {
 		if prop == "C11" {
 			delay = []time.Duration{time.Millisecond, 5 * time.Millisecond, 20 * time.Millisecond}[r.Intn(3)]
 		}
-		w := &slowWriter{delay: delay}
 		chunks := []int{1 + r.Intn(5), 1 + r.Intn(64), 4096}
+		if rp != nil {
+			bs = vUnhx(rp["stream"])
+			frames = vFramesOf(start, bs)
+			display, record = rp["display"] == "true", rp["record"] == "true"
+			delay, _ = time.ParseDuration(rp["delay"])
+			chunks = vInts(rp["chunks"])
+			cfg.DisplayMessages, cfg.RecordMessages = display, record
+		}
+		w := &slowWriter{delay: delay}
 		class := fmt.Sprintf("display=%v,record=%v", display, record)
-		op := fmt.Sprintf("filter display=%v record=%v delay=%v stream=%s", display, record, delay, vhx(bs))
+		op := fmt.Sprintf("filter display=%v record=%v delay=%v chunks=%s stream=%s", display, record, delay, vIntsText(chunks), vhx(bs))
 		failure := ""
 		vMark(op)
 		func() {
